@@ -288,6 +288,8 @@ void sk_child_exit(int pi, int status_word)
   for (int i = 0; i < SK_MAXFD; i++) if (p->fd[i].ofd >= 0) fd_close(p, i);
   p->state = PS_ZOMBIE;
   p->status = status_word;
+  /* a parent that ignores SIGCHLD gets no zombies: the kernel reaps the child at once and its status is gone */
+  if (K->proc[0].disp[SIGCHLD] == 1) { p->state = PS_REAPED; p->autoreaped = 1; }
 }
 
 /* the child ends but its descriptors stay open in a descendant that lives on */
@@ -852,6 +854,10 @@ pid_t __wrap_waitpid(pid_t pid, int *status, int options)
     errno = ECHILD; return -1;
   }
   int pi = sk_proc_by_pid(pid);
+  if (pi >= 0 && K->proc[pi].state == PS_REAPED && K->proc[pi].autoreaped) {   /* reaped by the kernel: not the caller's doing */
+    sk_logev(LK_WAITPID, pid, 0, 0, -ECHILD);
+    errno = ECHILD; return -1;
+  }
   if (pi < 0 || K->proc[pi].state == PS_REAPED) {
     sk_mon(MON_WAIT_BADPID, pid, 0);
     sk_logev(LK_WAITPID, pid, 0, 0, -ECHILD);
@@ -860,6 +866,7 @@ pid_t __wrap_waitpid(pid_t pid, int *status, int options)
   struct sk_proc *c = &K->proc[pi];
   int first = 1;
   while (c->state != PS_ZOMBIE) {
+    if (c->state == PS_REAPED && c->autoreaped) { sk_logev(LK_WAITPID, pid, 0, 0, -ECHILD); errno = ECHILD; return -1; }
     if ((options & WUNTRACED) && c->state == PS_RUNNING && c->stopped == 1) {   /* a stopped child, asked for: reported once, nothing is reaped */
       c->stopped = 2;
       if (status) *status = 0x7f | (SIGSTOP << 8);
